@@ -371,6 +371,37 @@ func runC01(c *eng.Ctx) {
 	c.Expect("GUARD-handler-cookie", 5)
 	c.Expect("ORDER-append-then-index", 2)
 
+	// (5b) ERR-storage: on the volume's read / write / delete paths no error of a callee is dropped: every call
+	// that returns an error is followed, on its non-nil edge, only by returns that carry an error
+	for _, name := range []string{"(*Volume).readNeedle", "(*Volume).doWriteRequest", "(*Volume).doDeleteRequest", "(*Volume).syncWrite", "(*Volume).syncDelete", "(*Volume).isFileUnchanged",
+		"(*Store).WriteVolumeNeedle", "(*Store).DeleteVolumeNeedle", "(*Store).ReadVolumeNeedle"} {
+		fn := c.NeedFunc("weed/storage", name)
+		if fn == nil {
+			continue
+		}
+		// only functions that can report an error themselves
+		res := fn.Signature.Results()
+		if res.Len() == 0 || !eng.IsErrorType(res.At(res.Len()-1).Type()) {
+			continue
+		}
+		var calls []ssa.Instruction
+		for _, in := range eng.Find(fn, func(in ssa.Instruction) bool {
+			call, ok := in.(*ssa.Call)
+			if !ok {
+				return false
+			}
+			r := call.Call.Signature().Results()
+			if r.Len() == 0 || !eng.IsErrorType(r.At(r.Len()-1).Type()) {
+				return false
+			}
+			return !eng.CalleeIs(call, "fmt.Errorf", "errors.New")
+		}) {
+			calls = append(calls, in)
+		}
+		c.ErrChecked("ERR-storage", "callee-error", fn, calls, "an error of a callee on the volume's read/write/delete path reaches the caller")
+	}
+	c.Expect("ERR-storage", 10)
+
 	// (6) SIB-replay: every replay of the index file into a lookup structure applies the
 	// tombstones too: a callback handed to idx.WalkIndexFile that stores the entry's key on the
 	// live branch removes the key on the other branch.
@@ -437,4 +468,42 @@ func runC01(c *eng.Ctx) {
 	}
 	_ = nReplay
 	c.Expect("SIB-replay", 4)
+}
+
+// errAll records an ERR obligation for every call in the named functions that returns an error: on its non-nil
+// edge only error-carrying returns are reachable (functions that cannot report an error themselves are skipped).
+func errAll(c *eng.Ctx, rule, pkg string, what string, names ...string) {
+	for _, name := range names {
+		fn := c.NeedFunc(pkg, name)
+		if fn == nil {
+			continue
+		}
+		res := fn.Signature.Results()
+		if res.Len() == 0 || !eng.IsErrorType(res.At(res.Len()-1).Type()) {
+			continue
+		}
+		for _, f := range eng.WithAnon(fn) {
+			if f != fn {
+				r := f.Signature.Results()
+				if r.Len() == 0 || !eng.IsErrorType(r.At(r.Len()-1).Type()) {
+					continue
+				}
+			}
+			var calls []ssa.Instruction
+			for _, in := range eng.Find(f, func(in ssa.Instruction) bool {
+				call, ok := in.(*ssa.Call)
+				if !ok {
+					return false
+				}
+				r := call.Call.Signature().Results()
+				if r.Len() == 0 || !eng.IsErrorType(r.At(r.Len()-1).Type()) {
+					return false
+				}
+				return !eng.CalleeIs(call, "fmt.Errorf", "errors.New", "io.Closer).Close", "os.File).Close")
+			}) {
+				calls = append(calls, in)
+			}
+			c.ErrChecked(rule, "callee-error", f, calls, what)
+		}
+	}
 }
